@@ -95,6 +95,16 @@ func vfcRunMaxfs(t *testing.T, tr *vfTrace, h int, seed int64, steps int) *vfcCl
 			c.setPolicy(t, func(p *PolicyOptions) { p.MaxFileSize = int64(L + 7) })
 			c.cfgLine()
 		}
+		if s == steps/2 || s == (5*steps)/6 {
+			// an unrelated option is changed through the read-modify-write cycle the API documents;
+			// the limit in force must survive it
+			o := c.env.n.GetExportOptions()
+			o.AttrCacheSize += 1
+			if err := c.env.n.UpdateExportOptions(o); err != nil {
+				t.Fatalf("UpdateExportOptions: %v", err)
+			}
+			c.cfgLine()
+		}
 		c.maxfsStep(r)
 	}
 	return c
